@@ -105,18 +105,44 @@ pub fn cases(tier: &str, seed: u64) -> Vec<Case> {
             v.push(c);
         }
     }
+    // the text entry points with texts around the 255-byte limit: within it the text is kept whole, beyond it the
+    // call is refused - never shortened (multi-byte characters put the limit inside a character)
+    for len in (200..=300usize).chain([301, 400, 511, 512, 1000, 70000]) {
+        for fill in ["v", "é", "€", "\u{1F600}"] {
+            let mut text = String::from("path=");
+            while text.len() + fill.len() <= len { text.push_str(fill); }
+            while text.len() < len { text.push('x'); }
+            let mut t2 = TXT::new();
+            let added = t2.add_string(&text).is_ok();
+            let with = TXT::new().with_string(&text);
+            let mut c = Case::oracle_only().tag("txt-text-limit");
+            let fits = text.len() <= 255;
+            if added != fits || with.is_ok() != fits { c = c.fail(if fits { "map-refused" } else { "overlong-accepted" }, format!("add_string / with_string of a {}-byte text: {} / {}", text.len(), added, with.is_ok())); }
+            else if fits {
+                let w = with.unwrap();
+                if t2.verif_strings() != vec![text.as_bytes()] || w.verif_strings() != vec![text.as_bytes()] { c = c.fail("txt-entry-points", format!("add_string / with_string of a {}-byte text stores another string", text.len())); }
+                let key_val = w.attributes();
+                if key_val.get("path").cloned().flatten().as_deref() != Some(&text[5..]) { c = c.fail("attrs-roundtrip", format!("a {}-byte attribute added as text does not read back", text.len())); }
+            } else if !t2.verif_strings().is_empty() { c = c.fail("overlong-accepted", format!("a refused add_string of {} bytes left a string behind", text.len())); }
+            v.push(c);
+        }
+    }
     // attribute maps within limits, and with over-long entries
     let n = if thorough { 20000 } else { 1500 };
     for i in 0..n {
         let mut m: HashMap<String, Option<String>> = HashMap::new();
         let overlong = i % 25 == 0;
-        for _ in 0..r.below(5) {
-            let klen = if r.chance(1, 20) { 0 } else { r.range(1, 12) as usize };
+        // mostly a handful of entries; now and then a map as large as a service with many long attributes (the record
+        // is bounded by RDLENGTH only: 6 x 245 bytes, 60 x 255 bytes ... all fit)
+        let many = i % 30 == 7;
+        let count = if many { r.range(6, if thorough { 200 } else { 60 }) } else { r.below(5) };
+        for _ in 0..count {
+            let klen = if r.chance(1, 20) && !many { 0 } else { r.range(1, 12) as usize };
             let key: String = rand_string(&mut r, klen).chars().filter(|c| *c != '=').collect();
             let val = match r.below(4) {
                 0 => None,
                 1 => Some(String::new()),
-                _ => { let room = 254usize.saturating_sub(key.len()); let l = if overlong && r.chance(1, 2) { room + 1 + r.below(3) as usize } else if r.chance(1, 8) { room } else { r.below(14) as usize };
+                _ => { let room = 254usize.saturating_sub(key.len()); let l = if overlong && r.chance(1, 2) { room + 1 + r.below(3) as usize } else if r.chance(1, 8) || (many && r.chance(2, 3)) { room - (r.below(12) as usize).min(room) } else { r.below(14) as usize };
                        Some(rand_string(&mut r, l)) }
             };
             m.insert(key, val);
